@@ -607,8 +607,36 @@ func TestC20(t *testing.T) {
 			run.Violation(id, r.Key, r.What, nil)
 		}
 	}
+	for i := 0; i < run.Pick(8, 200); i++ {
+		id := fmt.Sprintf("last-standing/%d", i)
+		if !run.Mine(i) || !run.Want(id) {
+			continue
+		}
+		run.Journal(id, "")
+		var res []*c01Result
+		call := []string{"Leave", "UpdateNode"}[i%2]
+		err := Bubble(t, func() { res = runC20LastStanding(run, run.Seed()*47+int64(i), 1+(i/2)%3, call) })
+		if err != nil {
+			res = append(res, &c01Result{"C20/bubble", err.Error()})
+		}
+		run.Eval(1)
+		for _, r := range res {
+			run.Violation(id, r.Key, r.What, map[string]any{"call": call})
+		}
+	}
+	for i := 0; i < run.Pick(4, 60); i++ {
+		id := fmt.Sprintf("stalled-delegate/%d", i)
+		if !run.Mine(i) || !run.Want(id) {
+			continue
+		}
+		run.Journal(id, "")
+		run.Eval(1)
+		for _, r := range runC20StalledDelegate(run, i) {
+			run.Violation(id, r.Key, r.What, nil)
+		}
+	}
 	if !run.Replaying() {
-		run.Require("blackhole|health=0", "real-stalled-peer|Leave(300ms)")
+		run.Require("blackhole|health=0", "real-stalled-peer|Leave(300ms)", "last-standing|Leave|peers=1", "last-standing|UpdateNode|peers=1", "real-stalled-delegate|Shutdown")
 	}
 	nr := run.Pick(32, 4000)
 	for i := 0; i < nr; i++ {
